@@ -795,6 +795,13 @@ class Mesh:
         if 'subdomains' in data and data['subdomains'] is not None:
             data['subdomains'] = {k: np.array(v, dtype=np.int32)
                                   for k, v in data['subdomains'].items()}
+        if data.get('orientations') is not None:
+            data['boundaries'] = {
+                k: (OrientedBoundary(v, data['orientations'][k])
+                    if k in data['orientations'] else v)
+                for k, v in data['boundaries'].items()
+            }
+        data.pop('orientations', None)
         data['doflocs'] = data.pop('p')
         data['_subdomains'] = data.pop('subdomains')
         data['_boundaries'] = data.pop('boundaries')
@@ -804,8 +811,12 @@ class Mesh:
 
         boundaries = None
         subdomains = None
+        orientations = {}
         if self.boundaries is not None:
             boundaries = {k: v.tolist() for k, v in self.boundaries.items()}
+            orientations = {k: v.ori.tolist()
+                            for k, v in self.boundaries.items()
+                            if isinstance(v, OrientedBoundary)}
         if self.subdomains is not None:
             subdomains = {k: v.tolist() for k, v in self.subdomains.items()}
         return {
@@ -813,6 +824,8 @@ class Mesh:
             't': self.t.T.tolist(),
             'boundaries': boundaries,
             'subdomains': subdomains,
+            # only present if there are oriented boundaries
+            **({'orientations': orientations} if orientations else {}),
         }
 
     @classmethod
@@ -1404,7 +1417,8 @@ class Mesh:
             data['doflocs'],
             data['t'],
             _boundaries={
-                key[2:]: data[key]
+                key[2:]: (OrientedBoundary(data[key], data['o_' + key[2:]])
+                          if 'o_' + key[2:] in data.files else data[key])
                 for key in data.files
                 if key[:2] == 'b_'
             },
@@ -1419,6 +1433,9 @@ class Mesh:
 
         boundaries = {} if self.boundaries is None else self.boundaries
         subdomains = {} if self.subdomains is None else self.subdomains
+        orientations = {'o_' + key: value.ori
+                        for key, value in boundaries.items()
+                        if isinstance(value, OrientedBoundary)}
         boundaries = {'b_' + key: value for key, value in boundaries.items()}
         subdomains = {'s_' + key: value for key, value in subdomains.items()}
         np.savez(
@@ -1427,4 +1444,5 @@ class Mesh:
             t=self.t,
             **boundaries,
             **subdomains,
+            **orientations,
         )
